@@ -211,12 +211,14 @@ def rootPoolOk (certs : List (Option Cert)) : Bool :=
   trcCertsOk certs && !(rootsOf certs).isEmpty
 
 inductive VerifyErr where
-  | chain (e : ChainErr) | noTRC | rootPool | x509
+  | chain (e : ChainErr) | noTRC | notIssuedByCA | rootPool | x509
   deriving Repr, DecidableEq
 
-/-- `verifyChain`; `x509ok` is the oracle: result of `certs[0].Verify` with intermediates
-`{certs[1]}` and the TRC's root pool at the verification time. -/
-def verifyChain (certs : List (Option Cert)) (trc : TrcArg) (x509ok : Bool) :
+/-- `verifyChain`.  `asByCa` is the oracle "`certs[0].CheckSignatureFrom(certs[1])` succeeds" (the
+AS certificate carries a valid signature of the CA certificate's key); `x509ok` is the oracle
+"`certs[0].Verify` with intermediates `{certs[1]}` and the TRC's root pool at the verification
+time succeeds". -/
+def verifyChain (certs : List (Option Cert)) (trc : TrcArg) (asByCa x509ok : Bool) :
     Except VerifyErr Unit :=
   match validateChain certs with
   | .error e => .error (.chain e)
@@ -225,31 +227,31 @@ def verifyChain (certs : List (Option Cert)) (trc : TrcArg) (x509ok : Bool) :
     | .nil => .error .noTRC
     | .zero => .error .noTRC
     | .trc tc =>
-      if !rootPoolOk tc then .error .rootPool
+      if !asByCa then .error .notIssuedByCA
+      else if !rootPoolOk tc then .error .rootPool
       else if x509ok then .ok () else .error .x509
 
-def verifyOk (certs : List (Option Cert)) (trc : TrcArg) (x509ok : Bool) : Bool :=
-  match verifyChain certs trc x509ok with
+def verifyOk (certs : List (Option Cert)) (trc : TrcArg) (asByCa x509ok : Bool) : Bool :=
+  match verifyChain certs trc asByCa x509ok with
   | .ok _ => true
   | .error _ => false
 
 /-- `VerifyChain`: success iff the chain verifies against at least one of the listed TRCs -/
-def verifyAny (certs : List (Option Cert)) : List (TrcArg × Bool) → Bool
+def verifyAny (certs : List (Option Cert)) (asByCa : Bool) : List (TrcArg × Bool) → Bool
   | [] => false
-  | (t, x) :: r => if verifyOk certs t x then true else verifyAny certs r
+  | (t, x) :: r => if verifyOk certs t asByCa x then true else verifyAny certs asByCa r
 
 /-! ### What Go's `Verify` is assumed to imply (checked on every harness case, used as a
-hypothesis by the property theorems): the leaf is signed by the intermediate, the intermediate
-by one of the roots, and all three are inside their validity at the verification time. -/
+hypothesis by the property theorems): the intermediate is signed by one of the roots, and leaf,
+intermediate and that root are inside their validity at the verification time. -/
 
 structure X509Facts where
-  asByCa : Bool
   /-- per root of the pool: (CA signed by this root, root.notBefore, root.notAfter) -/
   roots : List (Bool × Int × Int)
   deriving Repr
 
 def x509Necessary (a c : Cert) (f : X509Facts) (t : Int) : Bool :=
-  f.asByCa && contains a.notBefore a.notAfter t && contains c.notBefore c.notAfter t &&
+  contains a.notBefore a.notAfter t && contains c.notBefore c.notAfter t &&
   f.roots.any (fun r => r.1 && contains r.2.1 r.2.2 t)
 
 /-! ### The trust provider's choice of TRCs -/
